@@ -113,6 +113,10 @@ func (m *Model) applyHash(o Op) Exp {
 		return Exp{R: rInt(0)}
 	case "hgetall", "hkeys", "hvals":
 		e := m.hashR(tk)
+		if e != nil && len(e.f) > maxBulkRead {
+			m.dev("D16")
+			return Exp{R: rErr("too much batch size")}
+		}
 		var out []string
 		if e != nil {
 			for _, f := range sortedKeys(e.f) {
